@@ -9,6 +9,7 @@ import (
 	"os"
 	"path/filepath"
 	"sort"
+	"strings"
 	"time"
 
 	"github.com/FollowTheProcess/msg"
@@ -344,6 +345,11 @@ func (a *App) handleDefault(spokfile *file.SpokFile, runner shell.Runner) error 
 // clean is the default implementation of --clean if the user has
 // not defined a clean task in the spokfile itself.
 func (a *App) clean(spokfile *file.SpokFile) error {
+	// Output glob patterns mean the files that currently match them
+	if err := spokfile.ExpandGlobs(); err != nil {
+		return err
+	}
+
 	var toRemove []string
 	for _, task := range spokfile.Tasks {
 		// Gather up all the declared file outputs
@@ -382,6 +388,11 @@ func (a *App) clean(spokfile *file.SpokFile) error {
 			}
 			toRemove = append(toRemove, resolved)
 		}
+
+		// And everything matched by a glob output
+		for _, pattern := range task.GlobOutputs {
+			toRemove = append(toRemove, spokfile.Globs[pattern]...)
+		}
 	}
 
 	// Finally, add spok's own cache to the clean list
@@ -394,6 +405,12 @@ func (a *App) clean(spokfile *file.SpokFile) error {
 	}
 
 	for _, file := range toRemove {
+		if containsPath(file, spokfile.Path) {
+			// An output that evaluates to the spokfile, the directory it lives in or
+			// something above that (e.g. "", "." or "..") must never be removed
+			msg.Fwarn(a.stream.Stdout, "Not removing %s as it contains the spokfile", file)
+			continue
+		}
 		err := os.RemoveAll(file)
 		if err != nil {
 			return fmt.Errorf("Could not remove %s: %w", file, err)
@@ -407,6 +424,15 @@ func (a *App) clean(spokfile *file.SpokFile) error {
 // setStream reassigns all the app's IO streams to match the one passed in.
 func (a *App) setStream(stream iostream.IOStream) {
 	a.stream = stream
+}
+
+// containsPath reports whether path is parent itself or is somewhere underneath it.
+func containsPath(parent, path string) bool {
+	rel, err := filepath.Rel(parent, path)
+	if err != nil {
+		return false
+	}
+	return rel != ".." && !strings.HasPrefix(rel, ".."+string(filepath.Separator))
 }
 
 func exists(path string) bool {
